@@ -57,7 +57,9 @@ impl Conc {
         // ... including names the builders themselves write into the operation group: given as extra job attributes they
         // belong to the job-attributes group like any other
         let pool = ["copies", "sides", "media", "print-color-mode", "x", "job-priority", "orientation-requested", "名前",
-            "job-name", "requesting-user-name", "last-document", "document-name", "job-name"];
+            "job-name", "requesting-user-name", "last-document", "document-name", "job-name",
+            // names that sort before / between the header attributes under any plausible ordering
+            "\u{0}", "\u{0}0a", "\u{0}2z", "\u{1}", " ", "!", "A", "attributes", "attributes-charset2", "~"];
         let mut v = r.pick(&pool).to_string();
         while self.names.values().any(|x| *x == v) {
             v.push('2');
